@@ -1,6 +1,7 @@
 package as
 
 import (
+	"sync/atomic"
 	"encoding/base64"
 	"encoding/json"
 	"fmt"
@@ -21,6 +22,9 @@ func revokedBody(prov string) string {
 
 var notJSON = []string{"<html><body>502 Bad Gateway</body></html>", "access_token=abc&expires_in=3600", "{", "}{", "oops", "\x00\x01\x02", "{'a':1}"}
 
+// hangForClosed: concretise the class "closed" (no answer) as a hang; set only while the hang probes run
+var hangForClosed int32
+
 func errStatus(class string, prov string, r *rand.Rand) world.IdpAnswer {
 	other := pick(r, `{"error":"invalid_request","error_description":"Bad Request"}`, `{"error":"invalid_grant"}`, "bad request", "")
 	switch class {
@@ -37,6 +41,9 @@ func errStatus(class string, prov string, r *rand.Rand) world.IdpAnswer {
 	case "s503":
 		return world.IdpAnswer{Status: 503, Body: pick(r, "unavailable", `{}`)}
 	case "closed":
+		if atomic.LoadInt32(&hangForClosed) != 0 {
+			return world.IdpAnswer{Hang: true} // "no answer" as a provider that accepts the call and never answers
+		}
 		return world.IdpAnswer{Close: true}
 	}
 	panic("errStatus: " + class)
